@@ -178,6 +178,50 @@ def body_history(case, rec):
         if len(held) != len(original) or any(x is not y for x, y in zip(held, original)):
             raise Violation(f"editing a lookup result changed the rows of the indexed scaffold: {held}")
     rec.note(case, edits > 0 and whole, {"whole_scaffold_lookup_then_edit"} if whole and edits else ())
+    other = case.get("other_rows")
+    if other:
+        two_assemblies(rows_plain, other, case["steps"])
+
+
+def brute_check(asm, name, rows_plain, rows, a, b, what):
+    exp = ref.brute_overlap(rows_plain, a, b)
+    got = must(asm.find_overlaps, Fragment(name, a, b, 1), what=f"{what}: find_overlaps({name}:[{a},{b}])")
+    if (exp is None) != (got is None):
+        raise Violation(f"{what}: query {name}:[{a},{b}] expected {exp}, got {got and got.rows}")
+    if got is not None:
+        i, j, s_, e_ = exp
+        if len(got.rows) != j - i + 1 or any(g is not r for g, r in zip(got.rows, rows[i : j + 1])) or (got.start, got.end) != (s_, e_):
+            raise Violation(f"{what}: query {name}:[{a},{b}] returned rows {got.rows} span {got.start}..{got.end}, brute force gives rows {i}..{j} span {s_}..{e_}")
+
+
+def two_assemblies(rows_a, rows_b, steps):
+    """
+    Several indexed assemblies alive at once (same scaffold names, different layouts), a copy made with
+    new_from_assembly(), a scaffold added to each, scaffold objects renamed after indexing: every lookup is
+    still a function of the assembly it is made on and the name it was indexed under.
+    """
+    ra, rb = conv.mk_rows(rows_a), conv.mk_rows(rows_b)
+    sa, sb = Scaffold("s", ra), Scaffold("s", rb)
+    asm_a = IndexedAssembly("a", scaffolds=[sa, Scaffold("t", conv.mk_rows(rows_b))])
+    asm_b = IndexedAssembly("b", scaffolds=[sb])
+    for a, b, _ops in steps:
+        brute_check(asm_a, "s", rows_a, ra, a, b, "two assemblies alive (first)")
+        brute_check(asm_b, "s", rows_b, rb, a, b, "two assemblies alive (second)")
+    # a copy of an indexed assembly gets a scaffold of its own; so does the original, with another layout
+    copy = must(IndexedAssembly.new_from_assembly, asm_b, what="new_from_assembly(IndexedAssembly)")
+    ru, rv = conv.mk_rows(rows_a), conv.mk_rows(rows_b)
+    copy.add_scaffold(Scaffold("u", ru))
+    asm_b.add_scaffold(Scaffold("u", rv))
+    for a, b, _ops in steps:
+        brute_check(asm_b, "u", rows_b, rv, a, b, "original after its copy also got a scaffold 'u'")
+        brute_check(copy, "u", rows_a, ru, a, b, "copy made with new_from_assembly")
+        brute_check(copy, "s", rows_b, rb, a, b, "copy made with new_from_assembly")
+    # scaffold objects renamed after indexing (the remapper renames scaffolds by size): lookups go by the indexed name
+    t_rows = asm_a.scaffold_by_name("t").rows
+    sa.name, asm_a.scaffold_by_name("t").name = "t", "s"
+    for a, b, _ops in steps:
+        brute_check(asm_a, "s", rows_a, ra, a, b, "after the scaffold objects swapped names")
+        brute_check(asm_a, "t", rows_b, t_rows, a, b, "after the scaffold objects swapped names")
 
 
 @st.composite
@@ -196,7 +240,8 @@ def history_cases(draw):
             a = draw(st.integers(1, total))
             b = draw(st.integers(a, total + 2))
         steps.append([a, b, draw(st.lists(op_strategy, max_size=3))])
-    return {"rows": rows, "steps": steps}
+    other = draw(scaffold_rows(max_rows=6)) if draw(st.booleans()) else None
+    return {"rows": rows, "steps": steps, "other_rows": other}
 
 
 KINDS = [("F", 1), ("F", 2), ("F", 3), ("G", 1), ("G", 2), ("G", 3)]
